@@ -1329,7 +1329,7 @@ class GeoRing(PolygonBase):
             rings[0],
             holes=holes,
             dt=self.dt,
-            properties=self._properties
+            properties=copy.deepcopy(self._properties)
         )
 
     def to_wkt(self, **kwargs) -> str:
